@@ -24,7 +24,7 @@ from naunet.thermalprocess import ThermalProcess
 GAS = ["H", "H2", "C", "O", "CO", "OH", "H2O", "He", "N", "N2", "CH", "D", "HD", "O2", "Si", "SiO", "oH2", "pH2", "HCN", "HNC"]
 IONS = ["H+", "C+", "He+", "HCO+", "H3+", "He++", "H-", "O-", "Si+", "oH3+"]
 ELECTRON = ["e-", "E"]
-ICE = ["#H", "#CO", "#H2O", "#OH", "#O", "#N2", "#HCN", "#HNC", "#oH2", "#pH2"]      # incl. isomers / labelled pairs of one composition
+ICE = ["#H", "#CO", "#H2O", "#OH", "#O", "#N2", "#HCN", "#HNC"]      # incl. an isomer pair of one composition (binding energies known)
 GRAINS = ["GRAIN0", "GRAIN-", "GRAIN+"]
 
 
